@@ -3,7 +3,8 @@
 # /repo's working tree (so that long runs do not collide with work going on in /verif and /repo). Development aid.
 S="$1"; TIER="$2"; shift 2
 rm -rf "$S"; mkdir -p "$S/verif" "$S/repo"
-rsync -a --exclude .git /repo/ "$S/repo/"
+# the committed HEAD of /repo (not its working tree, which a seed regression may be patching at this moment)
+git -C /repo archive HEAD | tar -x -C "$S/repo"
 rsync -a --exclude .git --exclude evidence --exclude bin --exclude .work --exclude seeded --exclude notes /verif/ "$S/verif/"
 cd "$S/verif" || exit 2
 sed -i "s|=> /repo|=> $S/repo|" go.mod
